@@ -285,4 +285,16 @@ def gen_requests(rng, size, unit, n=6, sector=None, raw_align=1, max_bytes=4_000
         ln -= ln % raw_align
         if ln > 0:
             reqs[rng.randrange(len(reqs))] = [rng.pick(["raw", "bytes"]), a, ln]
+    # history on one object: the same back-end offset first with a short, then with a longer length (anything
+    # remembered per offset must not depend on the first request), and one position read twice
+    a = _near_boundary(rng, size, unit, raw_align) if rng.chance(0.6) else rng.randrange(0, max(1, size))
+    a -= a % max(raw_align, 512) if size > 512 else a % raw_align
+    a = max(0, min(a, size - 1))
+    a -= a % raw_align
+    short = max(raw_align, 512 - 512 % raw_align if raw_align <= 512 else raw_align)
+    long_ = min(max_bytes, max(short * 2, rng.pick([8192, 32768, 65536, 3 * unit])))
+    long_ -= long_ % raw_align
+    reqs.append(["raw", a, short])
+    reqs.append(["raw", a, max(raw_align, long_)])
+    reqs.append(["raw", a, short])
     return reqs
